@@ -119,6 +119,42 @@ func (f *srvFam) Reset(r *hx.Run) {
 	f.stop()
 }
 
+// startServer builds the pool server as txnpool.StartTxnPoolServer does (unnamed actors) plus two scripted validators.
+func (f *srvFam) startServer(preexec bool) {
+	ledgerOnce.Do(func() {
+		base := os.Getenv("TMPDIR")
+		if base == "" {
+			base = os.TempDir()
+		}
+		f.dir = filepath.Join(base, fmt.Sprintf("hpool-ledger-%d", os.Getpid()))
+		lg, err := ledger.NewLedger(f.dir)
+		if err != nil {
+			panic(err)
+		}
+		ledger.DefLedger = lg // isValidSender reads the relayer registry through it (empty here)
+		tp.VerifSetPermittedAddrs([]common.Address{permittedAddr})
+	})
+	f.preexec = preexec
+	f.s = tp.NewTxPoolServer(tc.MAX_WORKER_NUM, !f.preexec, true)
+	spawn := func(a actor.Actor) *actor.PID {
+		return actor.Spawn(actor.FromProducer(func() actor.Actor { return a }))
+	}
+	f.rspPid = spawn(tp.NewVerifyRspActor(f.s))
+	f.s.RegisterActor(tc.VerifyRspActor, f.rspPid)
+	f.poolPid = spawn(tp.NewTxPoolActor(f.s))
+	f.s.RegisterActor(tc.TxPoolActor, f.poolPid)
+	f.txPid = spawn(tp.NewTxActor(f.s))
+	f.s.RegisterActor(tc.TxActor, f.txPid)
+	f.vals = []*scriptedValidator{{typ: vt.Stateless, height: 1 << 20}, {typ: vt.Stateful, height: 1 << 20}}
+	f.valPids = nil
+	for i, v := range f.vals {
+		pid := spawn(v)
+		f.valPids = append(f.valPids, pid)
+		f.rspPid.Tell(&vt.RegisterValidator{Sender: pid, Type: v.typ, Id: "v" + strconv.Itoa(i)})
+	}
+	time.Sleep(50 * time.Millisecond)
+}
+
 func (f *srvFam) newTx() *types.Transaction {
 	f.nextTx++
 	id := f.nextTx
@@ -174,38 +210,7 @@ func (f *srvFam) oracle(r *hx.Run, path string) {
 func (f *srvFam) Exec(r *hx.Run, op []string) string {
 	switch op[0] {
 	case "start":
-		ledgerOnce.Do(func() {
-			base := os.Getenv("TMPDIR")
-			if base == "" {
-				base = os.TempDir()
-			}
-			f.dir = filepath.Join(base, fmt.Sprintf("hpool-ledger-%d", os.Getpid()))
-			lg, err := ledger.NewLedger(f.dir)
-			if err != nil {
-				panic(err)
-			}
-			ledger.DefLedger = lg // isValidSender reads the relayer registry through it (empty here)
-			tp.VerifSetPermittedAddrs([]common.Address{permittedAddr})
-		})
-		f.preexec = op[3] == "1"
-		f.s = tp.NewTxPoolServer(tc.MAX_WORKER_NUM, !f.preexec, true)
-		spawn := func(a actor.Actor) *actor.PID {
-			return actor.Spawn(actor.FromProducer(func() actor.Actor { return a }))
-		}
-		f.rspPid = spawn(tp.NewVerifyRspActor(f.s))
-		f.s.RegisterActor(tc.VerifyRspActor, f.rspPid)
-		f.poolPid = spawn(tp.NewTxPoolActor(f.s))
-		f.s.RegisterActor(tc.TxPoolActor, f.poolPid)
-		f.txPid = spawn(tp.NewTxActor(f.s))
-		f.s.RegisterActor(tc.TxActor, f.txPid)
-		f.vals = []*scriptedValidator{{typ: vt.Stateless, height: 1 << 20}, {typ: vt.Stateful, height: 1 << 20}}
-		f.valPids = nil
-		for i, v := range f.vals {
-			pid := spawn(v)
-			f.valPids = append(f.valPids, pid)
-			f.rspPid.Tell(&vt.RegisterValidator{Sender: pid, Type: v.typ, Id: "v" + strconv.Itoa(i)})
-		}
-		time.Sleep(50 * time.Millisecond)
+		f.startServer(op[3] == "1")
 		f.height = 0
 		f.lastPool = 0
 		if strconv.Itoa(tc.MAX_CAPACITY) != op[1] || strconv.Itoa(tc.MAX_LIMITATION) != op[2] {
